@@ -11,6 +11,9 @@
 (*             op is applied in the branches whose outcome string so far   *)
 (*             is listed in tt  (the truth table of the condition)         *)
 (*        | [g |-> "PROJ", w, x |-> <<basis state bits>>]  projector       *)
+(*        | [g |-> "GEN", of |-> gate record]   multiply by A = dU/dtheta  *)
+(*             U^-1 of that one-parameter gate (Gates.AGen): placed right  *)
+(*             after the gate it turns the state into d(psi)/d(theta)      *)
 (*  m     = [t |-> "expval", pw |-> <<0..3 per wire>>]                     *)
 (*        | [t |-> "probs", w |-> <<wires>>] | [t |-> "state"]             *)
 (*                                                                         *)
@@ -59,6 +62,7 @@ Step ==
              [] ins.g = "PROJ" -> [i \in 1..Len(br) |->
                     [br[i] EXCEPT !.v = [k |-> br[i].v.k, e |-> TLCEval([r \in 1..D |->
                         IF \A t \in 1..Len(ins.w) : Bit(r-1, ins.w[t], Case.n) = ins.x[t] THEN br[i].v.e[r] ELSE <<Zero>>])]]]
+             [] ins.g = "GEN" -> [i \in 1..Len(br) |-> [br[i] EXCEPT !.v = ApplyGate(br[i].v, AGen(ins.of), ins.of.w, Case.n)]]
              [] OTHER -> [i \in 1..Len(br) |-> [br[i] EXCEPT !.v = ApplyGate(br[i].v, GateM(ins), ins.w, Case.n)]]
   /\ pos' = pos + 1 /\ UNCHANGED tid
 
